@@ -276,7 +276,7 @@ func c16Run(b *core.B) {
 	r := b.Rng(1)
 	n := 12000
 	if b.Tier == core.Thorough {
-		n = 800000
+		n = 6000000
 	}
 	for i := 0; i < n/b.NBatches; i++ {
 		g := &c16Gen{r: r, np: r.Range(0, 4), strs: r.Chance(1, 3)}
